@@ -66,6 +66,9 @@ PoolSets ==
       [] Family = "C08d2big" -> [i \in 1 .. 5 |-> BinOp(OpSeq[i], NumBinary(ArithLeaves, ArithLeaves), NumLeavesSmall)]
                                \o [i \in 1 .. 5 |-> BinOp(OpSeq[i], NumLeavesSmall, NumBinary(ArithLeaves, ArithLeaves))]
                                \o <<NumUnary(NumBinary(ArithLeaves, ArithLeaves)), NumBinary(NumUnary(ArithLeaves), NumLeavesSmall)>>
+      [] Family = "C15fn"   -> [i \in 1 .. Cardinality(AllFunctions) |-> PoolC15fn(SetToSeq(AllFunctions)[i], TypeRepsSmall)]
+      [] Family = "C15fnwrap" -> [i \in 1 .. Cardinality(AllFunctions) |-> Wrap15(PoolC15fn(SetToSeq(AllFunctions)[i], TypeRepsSmall)) ]
+      [] Family = "C15ops"  -> <<Wrap15(PoolC15ops), Wrap15(PoolC15misc)>>
       [] Family = "C11pairs" -> <<PoolC11pairs(ElemNames)>>
       [] Family = "C11more"  -> <<PoolC11nested(ElemNames), PoolC11seq(ElemNames)>>
       [] Family = "C13wrap" -> [i \in 1 .. 12 |-> PoolC13wrap({SetToSeq(AllAxes)[i]}, TestsA)
@@ -122,8 +125,14 @@ Values == LET g == Env(doc) IN [i \in 1 .. Len(doc) |-> Eval(expr, g, Ctx(i))]
 AllNodeSets(vs) == \A i \in 1 .. Len(vs) : vs[i].t = "ns"
 NoneBad(vs) == \A i \in 1 .. Len(vs) : ~Bad(vs[i])
 
+IsC15 == SubSeq(Family, 1, 3) = "C15"
 Emit ==
     IsCase =>
+      IF IsC15
+      THEN \* classification only: no expected value is computed
+           CSVWrite("%1$s", <<ToJson([k |-> "noerr", d |-> DocCode(doc), e |-> expr,
+                                      r |-> [i \in 1 .. Len(doc) |-> "any"]])>>, OutFile)
+      ELSE
       LET g == Env(doc)
           vs == Values
       IN IF ~NoneBad(vs) THEN TRUE
